@@ -12,7 +12,7 @@
 (* the specification's step" and "the logged state satisfies the            *)
 (* property's predicate".  Empty set = the event conforms.                 *)
 (***************************************************************************)
-EXTENDS JobShop
+EXTENDS Rules
 
 Tag(c, x) == <<c, ToString(x)>>
 C(c) == <<c, "">>
@@ -163,6 +163,71 @@ ReplayClauses(T, prev, ev, post) ==
   \cup If(post.core # prev.core, {C("C02:replay-state")})
   \cup StateClauses(T.inst, T.filt, post)
 
+(* --- C04: dispatching rules ------------------------------------------------ *)
+RuleBestSet(rule, I, s, F) ==
+    CASE rule \in RuleNames -> BestUnder(rule, I, s, F)
+      [] rule = "obs_mwkr"  -> BestUnderObsMwkr(I, s, F)
+      [] OTHER              -> Rng(Avail(I, s, F))          \* random: any available operation
+
+(* one solver.step(dispatcher): the dispatched operation is what the recording *)
+(* observer was told                                                           *)
+RuleStepClauses(T, prev, ev, post) ==
+    LET I == T.inst  s == prev.core  F == T.filt IN
+    IF ev.out # "ok" THEN If(Avail(I, s, F) # <<>>, {Tag("C04:rule-raised", <<ev.rule, ev.out>>)})
+    ELSE IF Len(ev.notes) # 1 THEN {C("C04:step-did-not-dispatch-once")}
+    ELSE LET e == ev.notes[1].op  o == <<e[1], e[2]>>  m == e[3] IN
+           If(o \notin Rng(Avail(I, s, F)), {Tag("C04:selected-not-available", ev.rule)})
+      \cup If(o \in Rng(Avail(I, s, F)) /\ o \notin RuleBestSet(ev.rule, I, s, F), {Tag("C04:selected-not-best", ev.rule)})
+      \cup If(m \notin MSet(I, o), {C("C04:machine-not-eligible")})
+      \cup If(ev.chooser = "first" /\ m # Op(I, o).ms[1], {C("C04:chooser-first")})
+      \cup If(ValidRequest(I, s, o[1], o[2], m) /\ post.core # DispatchNext(I, s, o[1], m), {C("C04:step-state")})
+      \cup StateClauses(I, F, post)
+
+(* every rule asked (without dispatching) in the same state *)
+RulePicksClauses(T, prev, ev, post) ==
+    LET I == T.inst  s == prev.core  F == T.filt
+        bad == {i \in DOMAIN ev.picks : ev.picks[i].out # "ok"}
+        asked == Avail(I, s, F) # <<>>       \* rules are only defined where something is available
+    IN {Tag("C04:rule-raised", ev.picks[i].rule) : i \in {k \in bad : asked}}
+  \cup {Tag("C04:selected-not-available", ev.picks[i].rule) :
+          i \in {k \in DOMAIN ev.picks \ bad : ev.picks[k].res \notin Rng(Avail(I, s, F))}}
+  \cup {Tag("C04:selected-not-best", ev.picks[i].rule) :
+          i \in {k \in DOMAIN ev.picks \ bad : ev.picks[k].res \in Rng(Avail(I, s, F))
+                                                /\ ev.picks[k].res \notin RuleBestSet(ev.picks[k].rule, I, s, F)}}
+  \cup If(\E a, b \in DOMAIN ev.picks \ bad : ev.picks[a].rule = "mwkr" /\ ev.picks[b].rule = "obs_mwkr"
+                                               /\ ev.picks[a].res # ev.picks[b].res, {C("C04:mwkr-disagree")})
+  \cup If(post.core # prev.core, {C("C04:rule-changed-state")})
+
+(* a rule composed from built-in scoring functions with tie-breaking *)
+ScoreRuleClauses(T, prev, ev, post) ==
+    LET I == T.inst  s == prev.core  F == T.filt
+        Vs == [i \in DOMAIN ev.fns |-> ScoreVector(ev.fns[i], I, s, F)]
+    IN {Tag("C04:score", ev.fns[i]) : i \in {k \in DOMAIN ev.fns : ev.scores[k] # Vs[k]}}
+  \cup If(ev.out # "ok" /\ Avail(I, s, F) # <<>>, {Tag("C04:rule-raised", <<ev.fns, ev.out>>)})
+  \cup If(ev.out = "ok" /\ ev.res \notin Rng(Avail(I, s, F)), {Tag("C04:selected-not-available", ev.fns)})
+  \cup If(ev.out = "ok" /\ ev.res \in Rng(Avail(I, s, F)) /\ ev.res \notin LexBest(Vs, I, s, F), {Tag("C04:lex-not-best", ev.fns)})
+  \cup If(post.core # prev.core, {C("C04:rule-changed-state")})
+
+(* solver(instance): a complete run of the built-in solver on its own dispatcher *)
+SolverCallClauses(T, prev, ev, post) ==
+    LET I == T.inst IN
+    IF ev.out # "ok" THEN {Tag("C04:solver-raised", ev.out)}
+    ELSE   If(~Feasible(I, ev.sched), {C("C04:solver-infeasible")})
+      \cup If(~Complete(I, ev.sched), {C("C04:solver-incomplete")})
+      \cup If(ev.elapsed_sign < 0, {C("C04:negative-elapsed-time")})
+      \cup If(ev.solved_by # "DispatchingRuleSolver", {C("C04:solved-by")})
+      \cup If(post.core # prev.core, {C("C04:solver-changed-caller-state")})
+
+(* --- C08: the real dispatch tree under the real filter --------------------- *)
+BestFilteredClauses(T, prev, ev, post) ==
+    LET I == T.inst  opt == Opt(I) IN
+    IF ev.out # "ok" THEN {Tag("C08:tree-walk-raised", ev.out)}
+    ELSE   If(ev.leaves = <<>>, {C("C08:no-complete-schedule")})
+      \cup If(\E i \in DOMAIN ev.leaves : ev.leaves[i] = -1, {Tag("C07:filter-dead-end", ev.bfilt)})
+      \cup If(\E i \in DOMAIN ev.leaves : ev.leaves[i] # -1 /\ ev.leaves[i] < opt, {C("C08:below-optimum")})
+      \cup If(PositiveDurations(I) /\ ev.bfilt \in {<<>>, <<"dom">>}
+              /\ ~(\E i \in DOMAIN ev.leaves : ev.leaves[i] = opt), {Tag("C08:optimum-lost", ev.bfilt)})
+
 KindsOf(kinds, subs) == [i \in DOMAIN subs |-> IF subs[i] = 0 THEN "other" ELSE kinds[subs[i]]]
 
 CreateClauses(T, prev, ev, post) ==
@@ -195,6 +260,11 @@ DClauses(T, l, prev, post) ==
            [] ev.a = "Query"       -> QueryClauses(T, prev, ev, post)
            [] ev.a = "QueryArg"    -> QueryArgClauses(T, prev, ev, post)
            [] ev.a = "Filter"      -> FilterClauses(T, prev, ev, post)
+           [] ev.a = "RuleStep"    -> RuleStepClauses(T, prev, ev, post)
+           [] ev.a = "RulePicks"   -> RulePicksClauses(T, prev, ev, post)
+           [] ev.a = "ScoreRule"   -> ScoreRuleClauses(T, prev, ev, post)
+           [] ev.a = "SolverCall"  -> SolverCallClauses(T, prev, ev, post)
+           [] ev.a = "BestFiltered" -> BestFilteredClauses(T, prev, ev, post)
            [] ev.a = "Replay"      -> ReplayClauses(T, prev, ev, post)
            [] ev.a = "Create"      -> CreateClauses(T, prev, ev, post)
            [] ev.a = "Unsub"       -> UnsubClauses(T, prev, ev, post)
